@@ -19,7 +19,7 @@ LEVEL_TEXT = ("seeded search over operation histories (create / add block / writ
               "decryptor subset / rewrite / splice) with invariants checked after every step; sampling of histories")
 LEVEL_NOTE = ("device check is lenient about container framing (C08's subject): it needs the session key at the documented "
               "offset after an independent AES-CBC / ECIES unwrap; ephemeral scalars are observed, never predicted")
-RUNS = {"quick": 2000, "thorough": 100000}
+RUNS = {"quick": 2000, "thorough": 60000}
 OPTIMIZED_PASS = {"quick": 150, "thorough": 2000}   # extra runs under PYTHONOPTIMIZE=1 (assert statements removed)
 RULE = ("per run a history of 3-9 operations over up to 3 BEC2 files sharing a pool of secrets; after every write the device "
         "model unwraps each block; reads use seeded decryptor subsets; splices replace one block value by the same-kind "
